@@ -482,7 +482,6 @@ class WBEMSubscriptionManager:
                 inst = inst_list[i]
                 server.conn.DeleteInstance(inst.path)
                 del inst_list[i]
-            del self._owned_subscriptions[server_id]
 
         if server_id in self._owned_filters:
             inst_list = self._owned_filters[server_id]
@@ -491,7 +490,6 @@ class WBEMSubscriptionManager:
                 inst = inst_list[i]
                 server.conn.DeleteInstance(inst.path)
                 del inst_list[i]
-            del self._owned_filters[server_id]
 
         if server_id in self._owned_destinations:
             inst_list = self._owned_destinations[server_id]
@@ -500,9 +498,13 @@ class WBEMSubscriptionManager:
                 inst = inst_list[i]
                 server.conn.DeleteInstance(inst.path)
                 del inst_list[i]
-            del self._owned_destinations[server_id]
 
-        # Remove server from this listener
+        # Remove server from this listener. The lists of owned instances are
+        # dropped only now, so that the server remains registered with valid
+        # (possibly shortened) lists if one of the deletions above failed.
+        self._owned_subscriptions.pop(server_id, None)
+        self._owned_filters.pop(server_id, None)
+        self._owned_destinations.pop(server_id, None)
         del self._servers[server_id]
 
     def remove_all_servers(self):
